@@ -99,16 +99,31 @@ def rule_taint(ctx):
         okc = len(conts) <= 1 and all([fact_str(c).replace(" ", "") for c in (conditions_to(a["body"], x) or [])] == ["cond.value().is_some()"] for x in conts)
         ctx.check(R, "IfThenElse/skipped-only-for-a-known-constant-condition", okc, "early exits: %s" % [facts_str(conditions_to(a["body"], x) or []) for x in conts], site(TA, a))
         le = let_env(a["body"])
-        tb, fb = le.get("true_branch"), le.get("false_branch")
-        okb = tb is not None and fb is not None and render(strip(tb)).replace(" ", "") == "cfg.get_true_branch(basic_block)" and render(strip(fb)).replace(" ", "") == "cfg.get_false_branch(basic_block)"
+        # the two region lets, whatever they are called
+        tbn = [k_ for k_, v_ in le.items() if render(strip(v_)).replace(" ", "") == "cfg.get_true_branch(basic_block)"]
+        fbn = [k_ for k_, v_ in le.items() if render(strip(v_)).replace(" ", "") == "cfg.get_false_branch(basic_block)"]
+        tb, fb = (le.get(tbn[0]) if tbn else None), (le.get(fbn[0]) if fbn else None)
+        inline_regions = "cfg.get_true_branch(basic_block)" in render(a["body"]).replace(" ", "") and "cfg.get_false_branch(basic_block)" in render(a["body"]).replace(" ", "")
+        okb = (tb is not None and fb is not None) or inline_regions
         ctx.check(R, "IfThenElse/both-branch-regions-of-this-block", okb, "true: %s false: %s" % (render(tb) if tb else "?", render(fb) if fb else "?"), site(TA, a))
         if len(steps) == 1:
             from pathcond import each_form
 
-            rest_, args_ = each_form(conditions_to(a["body"], steps[0]) or [], steps[0]["args"])
+            from pathcond import _subst
+
+            le_step = let_env(a["body"], steps[0])
+            rest_, args_ = each_form(conditions_to(a["body"], steps[0]) or [], [_subst(x, {k_: v_ for k_, v_ in le_step.items() if strip(x).get("k") == "Path" and strip(x)["path"] == k_}) for x in steps[0]["args"]])
             c2 = rest_ + args_
             regions = "cfg.get_true_branch(basic_block).iter().chain(cfg.get_false_branch(basic_block).iter())"
-            ok = rest_ == ["!cond.value().is_some()"] and args_ in (["each(cond.variables_read()).name()", "each(each(%s).variables_written()).name()" % regions], ["each(cond.variables_read()).name()", "each(each(true_branch.iter().chain(false_branch.iter())).variables_written()).name()"])
+            args_n = list(args_)
+            if tbn and fbn:
+                args_n = [x.replace(tbn[0] + ".iter()", "cfg.get_true_branch(basic_block).iter()").replace(fbn[0] + ".iter()", "cfg.get_false_branch(basic_block).iter()") for x in args_n]
+            # names bound to `source.name()` / `sink.name()` stand for those calls
+            for k_, v_ in le.items():
+                vt = render(strip(v_)).replace(" ", "")
+                args_n = [vt if x == k_ else x for x in args_n]
+            ok = rest_ == ["!cond.value().is_some()"] and (args_n == ["each(cond.variables_read()).name()", "each(each(%s).variables_written()).name()" % regions] or args_ == ["each(cond.variables_read()).name()", "each(each(%s).variables_written()).name()" % regions])
+            c2 = rest_ + args_n
             ctx.check(R, "IfThenElse/condition-taints-everything-written-in-both-regions", ok, "step under %s" % c2, site(TA, steps[0]))
         else:
             ctx.bad(R, "IfThenElse/condition-taints-everything-written-in-both-regions", "expected one add_taint_step, found %d" % len(steps), site(TA, a))
